@@ -514,6 +514,10 @@ impl World {
 
 pub fn main(_args: &[String]) -> i32 {
     std::panic::set_hook(Box::new(|_| {}));
+    if std::env::var("VH_TRACE").is_ok() {
+        // diagnostics only: mdk / openmls log records on stderr
+        let _ = tracing_subscriber::fmt().with_env_filter(std::env::var("VH_TRACE").unwrap()).with_writer(std::io::stderr).try_init();
+    }
     let stdin = io::stdin();
     let out = io::stdout();
     let mut out = out.lock();
